@@ -3,7 +3,7 @@ import json, os, re, time, random, copy
 from . import common as C
 from . import cases as K
 
-TOKEN = re.compile(r"(?:T::m\d|G::g|M::\w+)(?:\(p\d+\)|\[#\d+\])?")
+TOKEN = re.compile(r"(?:T::m\d|G::g|D::\w+|Termination::report|M::\w+)(?:\(p\d+\)|\[#\d+\])?")
 
 
 def tokens(line):
@@ -58,6 +58,8 @@ def proj_outcome_kind(o):
     """a call's outcome: the value, or (kind of mock error, what it names)"""
     if is_panic(o):
         ls = msg_lines(o)
+        if len(ls) > 1:      # a verification message (the call consumed the instance): lines as a multiset
+            return ("P", tuple(sorted((error_kind(l), tokens(l)) for l in ls)))
         return ("P", error_kind(ls[0]), tokens(ls[0]))
     return o
 
